@@ -561,7 +561,7 @@ class SymbolValue(Value):
             return AddressValue(symbol.int)
 
         if symbol.is_numeric():
-            return NumericValue(symbol.int)
+            return NumericValue(-symbol.int if symbol.is_negative() else symbol.int)
 
     def is_8_bit(self):
         return False
